@@ -142,14 +142,14 @@ func runC01(c *Ctx) {
 		if pc == nil {
 			continue
 		}
-		P := c.Path(pc, nil) + "#0"
+		P := pc.P(c) + "#0"
 		S := ""
 		if typ != "create" {
-			sc := c.applierSDCall("C01.P1", typ, f, c.Path(pc, nil))
+			sc := c.applierSDCall("C01.P1", typ, f, pc.P(c))
 			if sc == nil {
 				continue
 			}
-			S = c.Path(sc, nil) + "#0"
+			S = sc.P(c) + "#0"
 		}
 		var apCall *ssa.Call
 		if typ != "deactivate" {
@@ -258,7 +258,7 @@ func runC01(c *Ctx) {
 		chkHash := callTo("IsValidModelMultihash(op.Delta, bound delta hash)", isValidMH, pathIs(P+".Delta"), pathIs(deltaHashPath))
 		chkVD := invokeOf("ValidateDelta(op.Delta)", "ValidateDelta", pathIs(P+".Delta"))
 		chkAP := &GCheck{Name: "ApplyPatches succeeded", MatchCall: func(c *Ctx, call *ssa.Call, env Env) bool { return call == apCall }}
-		chkParse := &GCheck{Name: "Parse" + typ + "Operation succeeded", MatchCall: func(c *Ctx, call *ssa.Call, env Env) bool { return call == pc }}
+		chkParse := &GCheck{Name: "Parse" + typ + "Operation succeeded", MatchCall: func(c *Ctx, call *ssa.Call, env Env) bool { return call == pc.call }}
 		var chkWin, chkSig, chkSD *GCheck
 		if typ != "create" {
 			chkWin = &GCheck{Name: "anchoring window check(signedData.AnchorFrom, signedData.AnchorUntil, anchoredOp.TransactionTime)", MatchCall: func(c *Ctx, call *ssa.Call, env Env) bool {
